@@ -184,13 +184,25 @@ func newCommand() *cobra.Command {
 // newCommandTree builds the commands the way every real binary does (apps/testapp/cmd/root.go,
 // apps/evm/*/main.go + pkg/cmd/run_node.go): the global flags (home, log.*) are PERSISTENT flags of a root command, the
 // node flags belong to a subcommand, and config.Load is called with the subcommand from inside its RunE.
-func newCommandTree(run func(sub *cobra.Command) error) *cobra.Command {
+//
+// group = true is the layout of an application that mounts the node's commands under a command group of its own
+// (`mychain node run`): the root carries nothing of the node, the global flags are persistent flags of the
+// INTERMEDIATE command, the node flags belong to the leaf that calls config.Load. cobra hands the leaf the persistent
+// flags of all its ancestors, so every flag is accepted on the command line exactly as in the two-level layout.
+func newCommandTree(group bool, run func(sub *cobra.Command) error) *cobra.Command {
 	root := &cobra.Command{Use: "c18", SilenceUsage: true, SilenceErrors: true}
-	config.AddGlobalFlags(root, "c18")
 	sub := &cobra.Command{Use: "run", SilenceUsage: true, SilenceErrors: true, Args: cobra.NoArgs,
 		RunE: func(cmd *cobra.Command, _ []string) error { return run(cmd) }}
 	config.AddFlags(sub)
-	root.AddCommand(sub)
+	if !group {
+		config.AddGlobalFlags(root, "c18")
+		root.AddCommand(sub)
+		return root
+	}
+	mid := &cobra.Command{Use: "node", SilenceUsage: true, SilenceErrors: true}
+	config.AddGlobalFlags(mid, "c18")
+	mid.AddCommand(sub)
+	root.AddCommand(mid)
 	return root
 }
 
